@@ -118,6 +118,7 @@ typedef struct {
     int grids[8][2], ngrids;      /* process grids (P,Q) with P*Q == world, used for source and target independently */
     int reduced;                  /* 0: all displacements; 1: displacements restricted to {0, mid, max} in each dimension */
     int shard, nshards;
+    int skip_k11;                 /* leave (kq_source, kq_target) = (1,1) to another invocation */
 } box_t;
 
 typedef struct {
@@ -139,7 +140,7 @@ static int case_parse(const char *s, mdesc_t *y, mdesc_t *t, win_t *w, int *np)
     int n = sscanf(s, "np=%d Y=%15[^:]:%dx%d/t%d/g%dx%d/k%d T=%15[^:]:%dx%d/t%d/g%dx%d/k%d win=%dx%d@Y(%d,%d)->T(%d,%d)", np,
                    yd, &y->M, &y->N, &y->t, &y->P, &y->Q, &y->kq, td, &t->M, &t->N, &t->t, &t->P, &t->Q, &t->kq,
                    &w->sr, &w->sc, &w->iY, &w->jY, &w->iT, &w->jT);
-    if (n != 22) return -1;
+    if (n != 21) return -1;
     y->dist = t->dist = -1;
     for (int i = 0; i < 3; i++) { if (!strcmp(yd, dist_name[i])) y->dist = i; if (!strcmp(td, dist_name[i])) t->dist = i; }
     return (y->dist < 0 || t->dist < 0) ? -1 : 0;
@@ -256,6 +257,7 @@ static void run_pair(const box_t *b, int yd, int td, const char *tag)
         mdesc_t y = { yd, M, N, b->tiles[ity], b->grids[gy][0], b->grids[gy][1], b->kqs[ky] };
         mdesc_t t = { td, MR, NR, b->tiles[itt], b->grids[gt][0], b->grids[gt][1], b->kqs[kt] };
         /* non-2DBC descriptors ignore grid and k: enumerate them once */
+        if (b->skip_k11 && yd == D_BC && td == D_BC && b->kqs[ky] == 1 && b->kqs[kt] == 1) continue;
         if (yd != D_BC && (gy || ky)) continue;
         if (td != D_BC && (gt || kt)) continue;
         if ((cfg++ % b->nshards) != b->shard) continue;
@@ -282,7 +284,7 @@ static void run_pair(const box_t *b, int yd, int td, const char *tag)
                 if (!bad) snprintf(st.samples[st.nsamples++], 512, "%s path=%s", cs, last_tp_name);
             }
             if (bad) {
-                if (myrank == 0) sx_violation(tag, cs, msg);
+                if (myrank == 0) { char vtag[96]; snprintf(vtag, sizeof(vtag), "%s-s%d", tag, b->shard); sx_violation(vtag, cs, msg); }   /* replay file names unique per shard */
                 st.violations++; st.exhaustive = 0;
                 mat_fill(&Y, 0);              /* the source may have been damaged */
                 if (st.violations >= 3) stop = 1;
@@ -333,6 +335,7 @@ int main(int argc, char **argv)
         else if (!strcmp(argv[i], "--kq") && i + 1 < argc) b.nkq = parse_list(argv[++i], b.kqs, 3);
         else if (!strcmp(argv[i], "--grids") && i + 1 < argc) grids = argv[++i];
         else if (!strcmp(argv[i], "--reduced")) b.reduced = 1;
+        else if (!strcmp(argv[i], "--skip-k11")) b.skip_k11 = 1;
         else if (!strcmp(argv[i], "--shard") && i + 1 < argc) { sscanf(argv[++i], "%d/%d", &b.shard, &b.nshards); }
         else if (!strcmp(argv[i], "--outcomes") && i + 1 < argc) outcome_file = argv[++i];
         else if (!strcmp(argv[i], "--skip") && i + 1 < argc) skip_pairs = argv[++i];
@@ -375,7 +378,7 @@ int main(int argc, char **argv)
         }
     } else {
         for (int i = 0; i < b.nyd; i++) for (int j = 0; j < b.ntd; j++) {
-            char tag[64]; snprintf(tag, sizeof(tag), "np%d-%s-to-%s%s", world, dist_name[b.ydists[i]], dist_name[b.tdists[j]], b.reduced ? "-reduced" : "");
+            char tag[64]; snprintf(tag, sizeof(tag), "np%d-%s-to-%s%s", world, dist_name[b.ydists[i]], dist_name[b.tdists[j]], b.reduced ? "-reduced" : b.skip_k11 ? "-kcyclic" : "");
             char pr[32]; snprintf(pr, sizeof(pr), "%s-to-%s,", dist_name[b.ydists[i]], dist_name[b.tdists[j]]);
             if (skip_pairs && strstr(skip_pairs, pr)) continue;
             run_pair(&b, b.ydists[i], b.tdists[j], tag);
